@@ -9,7 +9,7 @@
 #include <typeinfo>
 
 namespace ta {
-struct Block { size_t bytes; const std::type_info* type; };
+struct Block { size_t bytes; const std::type_info* type; int arena; };
 struct Ledger {
   std::map<void*, Block> live;
   size_t live_bytes = 0, high_water = 0, total_allocs = 0, total_frees = 0, null_frees = 0;
@@ -21,39 +21,46 @@ struct Ledger {
   void arm(long k) { fail_at = k; alloc_ordinal = 0; fired = false; }
   void disarm() { fail_at = -1; }
   void mark() { high_water = live_bytes; }
-  void* alloc(size_t bytes, const std::type_info& ty) {
+  void* alloc(size_t bytes, const std::type_info& ty, int arena = 0) {
     if (fail_at >= 0 && alloc_ordinal++ == fail_at) { fired = true; throw std::bad_alloc(); }
     void* p = ::malloc(bytes ? bytes : 1); if (!p) throw std::bad_alloc();
-    live[p] = Block{bytes, &ty}; live_bytes += bytes; if (live_bytes > high_water) high_water = live_bytes; total_allocs++;
+    live[p] = Block{bytes, &ty, arena}; live_bytes += bytes; if (live_bytes > high_water) high_water = live_bytes; total_allocs++;
     return p;
   }
-  void dealloc(void* p, size_t bytes, const std::type_info& ty) {
+  void dealloc(void* p, size_t bytes, const std::type_info& ty, int arena = 0) {
     if (!p) { null_frees++; return; }
     auto it = live.find(p);
     if (it == live.end()) { errors.push_back("deallocate of a pointer that is not live (double free or foreign pointer), " + std::to_string(bytes) + " bytes of " + ty.name()); return; }
     if (it->second.bytes != bytes) errors.push_back("deallocate size mismatch: allocated " + std::to_string(it->second.bytes) + " bytes, returned as " + std::to_string(bytes) + " (" + ty.name() + ")");
+    if (it->second.arena != arena) errors.push_back("deallocate through a different allocator instance: obtained from arena " + std::to_string(it->second.arena) + ", returned to arena " + std::to_string(arena) + " (" + ty.name() + ")");
     if (*it->second.type != ty) errors.push_back(std::string("deallocate type mismatch: allocated as ") + it->second.type->name() + " returned as " + ty.name());
     live_bytes -= it->second.bytes; live.erase(it); total_frees++; ::free(p);
   }
 };
 inline Ledger& ledger() { static Ledger L; return L; }
 
+// Stateful: every instance belongs to an arena (0 = default-constructed); a block must go back through an instance of the
+// arena it came from. The type does not declare propagate_on_container_* (they default to false), like most user allocators.
 template <class T> struct TrackAlloc {
   typedef T value_type;
   template <class U> struct rebind { typedef TrackAlloc<U> other; };
-  TrackAlloc() {}
-  template <class U> TrackAlloc(const TrackAlloc<U>&) {}
-  T* allocate(size_t n) { return static_cast<T*>(ledger().alloc(n * sizeof(T), typeid(T))); }
-  void deallocate(T* p, size_t n) { ledger().dealloc(p, n * sizeof(T), typeid(T)); }
-  template <class U> bool operator==(const TrackAlloc<U>&) const { return true; }
-  template <class U> bool operator!=(const TrackAlloc<U>&) const { return false; }
+  int arena;
+  TrackAlloc() : arena(0) {}
+  explicit TrackAlloc(int a) : arena(a) {}
+  template <class U> TrackAlloc(const TrackAlloc<U>& o) : arena(o.arena) {}
+  T* allocate(size_t n) { return static_cast<T*>(ledger().alloc(n * sizeof(T), typeid(T), arena)); }
+  void deallocate(T* p, size_t n) { ledger().dealloc(p, n * sizeof(T), typeid(T), arena); }
+  template <class U> bool operator==(const TrackAlloc<U>& o) const { return arena == o.arena; }
+  template <class U> bool operator!=(const TrackAlloc<U>& o) const { return arena != o.arena; }
 };
 template <> struct TrackAlloc<void> {
   typedef void value_type;
   template <class U> struct rebind { typedef TrackAlloc<U> other; };
-  TrackAlloc() {}
-  template <class U> TrackAlloc(const TrackAlloc<U>&) {}
-  template <class U> bool operator==(const TrackAlloc<U>&) const { return true; }
-  template <class U> bool operator!=(const TrackAlloc<U>&) const { return false; }
+  int arena;
+  TrackAlloc() : arena(0) {}
+  explicit TrackAlloc(int a) : arena(a) {}
+  template <class U> TrackAlloc(const TrackAlloc<U>& o) : arena(o.arena) {}
+  template <class U> bool operator==(const TrackAlloc<U>& o) const { return arena == o.arena; }
+  template <class U> bool operator!=(const TrackAlloc<U>& o) const { return arena != o.arena; }
 };
 }  // namespace ta
